@@ -49,6 +49,10 @@ class CGen:
         if want_int:
             return self.intlit()
         # floating literals
+        if r.random() < 0.12:
+            # negative zero: false as a condition although its bit pattern is not zero
+            e, x = r.choice([('(-0.0)', -0.0), ('(-0.0f)', -0.0), ('(0.0 * -1)', -0.0), ('(-0.0 + 0.0)', 0.0), ('(0.0f / -5)', -0.0)])
+            return e, x, (m.FLOAT if 'f' in e else m.DOUBLE)
         f = r.choice(['0.0', '1.0', '0.5', '2.5', '1e10', '1e-3', '.25', '5.', '1.5e2', '0x1.8p3', '0x1p-2', '3.0', '100.125', '1e0', '16777217.0', '0.1', '0.3', '1e38', '4294967296.0',
                       '2147483648.0', '9223372036854775808.0', '1e19', '0.999', '255.5', '32768.5', '1e-40'])
         suf = r.choice(['', '', 'f', 'F'])
